@@ -1,0 +1,32 @@
+//! Verification hooks (only compiled with `--cfg faassen_xot_verif`).
+//!
+//! Thin public wrappers around `pub(crate)` kernels so that an out-of-tree
+//! harness crate can drive them. Nothing here changes behaviour; with the
+//! cfg off this module does not exist.
+#![allow(missing_docs)]
+
+use std::borrow::Cow;
+
+use crate::error::ParseError;
+use crate::output::NoopNormalizer;
+
+pub fn parse_text(content: &str, base_position: usize) -> Result<String, ParseError> {
+    crate::entity::parse_text(Cow::Borrowed(content), base_position).map(|c| c.into_owned())
+}
+
+pub fn parse_attribute(content: &str, base_position: usize) -> Result<String, ParseError> {
+    crate::entity::parse_attribute(Cow::Borrowed(content), base_position).map(|c| c.into_owned())
+}
+
+pub fn serialize_text(content: &str, unescaped_gt: bool) -> String {
+    crate::entity::serialize_text(Cow::Borrowed(content), &NoopNormalizer, unescaped_gt)
+        .into_owned()
+}
+
+pub fn serialize_cdata(content: &str) -> String {
+    crate::entity::serialize_cdata(Cow::Borrowed(content), &NoopNormalizer).into_owned()
+}
+
+pub fn serialize_attribute(content: &str) -> String {
+    crate::entity::serialize_attribute(Cow::Borrowed(content), &NoopNormalizer).into_owned()
+}
